@@ -170,7 +170,7 @@ def c02(pid, tier, seed):
             MpOps=("mp_println", "mp_clear"), MsgShapes=("a", "W1"), TextShapes=("T",), Fins=("AndLeave",), Tgt="pty", DTs=(0, 5000), M0="id", shards=12),
         fam("multi_limited", conf="multi", W=4, H=12, Multi=True, MaxBars=2, D=5 if q else 6, BarOps=("burst", "set_message", "finish", "drop", "tick"), MpOps=(),
             MsgShapes=("a",), Tpls=("M",), Fins=("AndLeave",), Hz=2, DTs=(0,), M0="id", shards=12),
-        fam("multi_deep", conf="multi", W=5, H=40, Multi=True, MaxBars=4, D=30, BarOps=ALL_BAR_OPS | {"mp_remove"}, MpOps=("insert", "insert_rel", "mp_println", "mp_suspend", "mp_clear", "mp_set_alignment"),
+        fam("multi_deep", conf="multi", W=5, H=40, Multi=True, MaxBars=4, D=30, BarOps=ALL_BAR_OPS | {"mp_remove", "set_target", "readd"}, MpOps=("insert", "insert_rel", "mp_println", "mp_suspend", "mp_clear", "mp_set_alignment"),
             MsgShapes=("e", "a", "W", "W1", "nlA", "AnnB"), TextShapes=("T", "TW1", "TnlT", "e"), Tpls=("M", "PnM", "MnC"),
             Fins=("AndLeave", "AndClear", "Abandon", "WithMessage"), DTs=(0, 1000), M0="id", mode=("sim", 400 if q else 4000, 32), shards=12),
     ]
